@@ -303,7 +303,11 @@ func runC04(c *Ctx) {
 	c.Rule("C04-R2", "function and aggregator tables agree with the vendored parser", 84)
 	c.Rule("C04-R3", "label narrowing only in label-dropping contexts", 30)
 	c.Rule("C04-R4", "consumer guards of the non-existent label report", 4)
+	c.Rule("C04-R5", "label lists are owned; stamped labels re-admitted; only l=\"\" excludes", 25)
 	c04Exhaustive(c, "C04")
+	c04Ownership(c, "C04-R5")
+	c04Stamped(c, "C04-R5")
+	c04EmptyMatcher(c, "C04-R5")
 
 	// ---- R3 ----
 	labelDroppingFuncs := map[string]bool{"absent": true, "absent_over_time": true, "pi": true, "scalar": true, "time": true, "vector": true}
@@ -471,7 +475,11 @@ func runC12(c *Ctx) {
 	c.Rule("C12-R3", "IsDead is set only in the reference contexts", 7)
 	c.Rule("C12-R4", "static comparison table: dead iff the negated comparison holds", 13)
 	c.Rule("C12-R5", "promql/impossible reports only dead sources", 2)
+	c.Rule("C12-R6", "label lists are owned (analysis does not rewrite the parsed query)", 20)
+	c.Rule("C12-R7", "canJoin compares the adjusted source with the inspected element", 9)
 	c04Exhaustive(c, "C12")
+	c04Ownership(c, "C12-R6")
+	c12JoinOperands(c, "C12-R7")
 
 	// ---- R3 ----
 	up := p.Pkg("internal/parser/utils")
